@@ -42,9 +42,16 @@ def shape(value):
     return getattr(value, 'shape', ())
  
 
+def _sorted_keys(keys):
+    """sorted(keys); keys of types that cannot be compared with each other are ordered by type name first"""
+    try:
+        return sorted(keys)
+    except TypeError:
+        return sorted(keys, key = lambda k: (type(k).__name__, repr(k)))
+
 def _item_by_key(value, key, keys, i = None):
     if isinstance(value, dict):
-        if sorted(value.keys()) == keys:
+        if _sorted_keys(value.keys()) == keys:
             return value[key]
         else:
             return type(value)({k : _item_by_key(v, key, keys, i) for k, v in value.items()})
@@ -206,7 +213,7 @@ class loops(wrapper):
     def _wrapped(self, arg, args, kwargs):
         axis = kwargs.pop('axis', 0)
         if isinstance(arg, dict) and type(arg) in self.types:
-            keys = sorted(arg.keys())
+            keys = _sorted_keys(arg.keys())
             res = {key : self._wrapped(arg[key], tuple(_item_by_key(a,key,keys) for a in args), {k : _item_by_key(v,key,keys) for k,v in kwargs.items()}) for key in arg.keys()}
             return type(arg)(res)
         elif isinstance(arg, pd.DataFrame) and pd.DataFrame in self.types:
